@@ -307,13 +307,17 @@ Fixpoint bytes_eqb (a b : bytes) : bool :=
   | x :: a', y :: b' => (x =? y) && bytes_eqb a' b'
   | _, _ => false
   end.
-(** Go's == / bytes.Equal on what a plain or binary field can hold (doubles: by bit pattern;
-    the generators keep NaN and -0 out of optional double fields that have a default) *)
+(** Go's float64 ==: NaN differs from everything, +0 equals -0 *)
+Definition dbl_is_nan (b : Z) : bool := 9218868437227405312 <? b mod 9223372036854775808.
+Definition dbl_is_zero (b : Z) : bool := b mod 9223372036854775808 =? 0.
+Definition dbl_eqb (a b : Z) : bool :=
+  if dbl_is_nan a || dbl_is_nan b then false else (a =? b) || (dbl_is_zero a && dbl_is_zero b).
+(** Go's == / bytes.Equal on what a plain or binary field can hold *)
 Definition base_eqb (x y : val) : bool :=
   match x, y with
   | VBool a, VBool b => Bool.eqb a b
   | VInt a, VInt b => a =? b
-  | VDouble a, VDouble b => a =? b
+  | VDouble a, VDouble b => dbl_eqb a b
   | VBytes a, VBytes b => bytes_eqb a b
   | _, _ => false
   end.
